@@ -322,8 +322,13 @@ impl Controller for Ctl {
     }
 }
 
+/// runs that never returned in this process (their threads are abandoned; the worker stops taking new work)
+pub static STUCK_RUNS: std::sync::atomic::AtomicUsize = std::sync::atomic::AtomicUsize::new(0);
+
 #[derive(Clone, Debug, PartialEq, Eq)]
 pub enum Verdict {
+    /// the run did not return within the limit: the coordinator or a task body loops or blocks for ever
+    Stuck(String),
     Ok,
     Err(String),
     /// the coordinator panicked
@@ -343,6 +348,7 @@ impl Verdict {
     }
     pub fn kind(&self) -> &'static str {
         match self {
+            Verdict::Stuck(_) => "Stuck",
             Verdict::Ok => "Ok",
             Verdict::Err(_) => "Err",
             Verdict::Panic(_) => "Panic",
@@ -352,7 +358,7 @@ impl Verdict {
     }
     pub fn detail(&self) -> String {
         match self {
-            Verdict::Err(s) | Verdict::Panic(s) => s.clone(),
+            Verdict::Err(s) | Verdict::Panic(s) | Verdict::Stuck(s) => s.clone(),
             _ => String::new(),
         }
     }
@@ -437,14 +443,48 @@ impl Drop for WatchGuard {
     }
 }
 
-/// Run `Txtpp::run(cfg)` on this thread under the controller with the given choice prefix.
+/// Run `Txtpp::run(cfg)` under the controller with the given choice prefix. The coordinator runs on its own
+/// thread so that a run which never returns (endless loop in the coordinator, a task body that blocks for ever)
+/// becomes the verdict `Stuck` after `VERIF_STUCK_S` (default 12) seconds instead of stalling the harness.
 pub fn run_controlled(cfg: Config, opts: &CtlOpts) -> RunResult {
     let pool = cfg.num_threads;
     let ctl = Arc::new(Ctl::new(opts.prefix.clone(), pool.max(1), opts.explore, opts.max_tasks));
     let _w = WatchGuard::new(format!("base={:?} inputs={:?} mode={:?}", cfg.base_dir, cfg.inputs, cfg.mode));
-    let prev = txtpp::verif::install(Some(ctl.clone() as Arc<dyn Controller>));
-    let r = catch_unwind(AssertUnwindSafe(|| Txtpp::run(cfg)));
-    txtpp::verif::install(prev);
+    let limit = std::env::var("VERIF_STUCK_S").ok().and_then(|s| s.parse().ok()).unwrap_or(12.0f64);
+    let (tx, rx) = std::sync::mpsc::channel();
+    let ctl2 = ctl.clone();
+    let handle = std::thread::Builder::new()
+        .name("coordinator".into())
+        .spawn(move || {
+            let prev = txtpp::verif::install(Some(ctl2 as Arc<dyn Controller>));
+            let r = catch_unwind(AssertUnwindSafe(|| Txtpp::run(cfg)));
+            txtpp::verif::install(prev);
+            let _ = tx.send(r);
+        })
+        .expect("spawn coordinator thread");
+    let r = match rx.recv_timeout(Duration::from_secs_f64(limit)) {
+        Ok(r) => {
+            let _ = handle.join();
+            r
+        }
+        Err(_) => {
+            STUCK_RUNS.fetch_add(1, std::sync::atomic::Ordering::Relaxed);
+            let s = ctl.st.lock().unwrap();
+            let what = match s.granted {
+                Some(i) => format!("task {} started and never ended", s.tasks[i].label),
+                None => format!("the coordinator ({:?}) never came back; no task was running", s.coord),
+            };
+            return RunResult {
+                verdict: Verdict::Stuck(what),
+                decisions: s.decisions.clone(),
+                trace: s.trace.clone(),
+                worker_panics: s.worker_panics.clone(),
+                replay_misfit: None,
+                tasks: s.tasks.len(),
+                hang_in_drop: s.hang_in_drop,
+            };
+        }
+    };
     let s = ctl.st.lock().unwrap();
     let verdict = match r {
         Ok(Ok(())) => Verdict::Ok,
